@@ -340,6 +340,63 @@ def run(ctx):
             ctx.violation("a %s finished after %.2f s while another writer held the step file's lock (held for %.1f s)" % (early[0], early[1], hold), info)
         elif ids != [1, 2, 21, 22] or outsA[0][0] != 0 or pB.returncode != 0 or pR.returncode != 0:
             ctx.violation("after a %.1f s critical section the file holds the ids %s (expected 1, 2, 21, 22) / a command failed" % (hold, ids), info)
+    # ---- the other readers of the step file (robsd-report, robsd-regress-html use the same parser): a writer is
+    # held right after it truncated the file; a report or html generation started meanwhile must wait for it
+    # and then see the complete file, never the empty one
+    from .. import reportgen
+    for t in range(ctx.n(2, 6)):
+        root2 = os.path.join(ctx.scratch, "c02readers")
+        shutil.rmtree(root2, ignore_errors=True)
+        b2 = os.path.join(root2, "2024-01-02.1")
+        os.makedirs(os.path.join(b2, "tmp"))
+        open(os.path.join(root2, ".running"), "w").write(b2 + "\n")
+        p2 = os.path.join(b2, "step.csv")
+        c2 = HEADER + b"1,bin/one,1,5,0,one.log,root,1700000000,0\n2,bin/two,0,7,0,two.log,root,1700000005,0\n"
+        open(p2, "wb").write(c2)
+        open(os.path.join(b2, "one.log"), "w").write("==== t ====\nFAILED t\n")
+        open(os.path.join(b2, "two.log"), "w").write("ok\n")
+        rr = reportgen.ReportRunner(ctx, d)
+        which = ["report", "html"][t % 2]
+        conf2 = rr.conf("robsd-regress" if which == "html" else "canvas", root2)
+        hold = 2.5
+        sA = Sched(ctx, step, p2, [("W", 3, full_row(3, "bin/three", 0))])
+        pt = None
+        for _ in range(8):
+            pt = sA.go(0, 5)
+            if pt in ("write", "exit", None):
+                break
+        empty_now = os.path.getsize(p2) == 0
+        t0 = time.time()
+        if which == "report":
+            argv2 = [os.path.join(d, "robsd-report"), "-m", "canvas", "-C", conf2, b2]
+        else:
+            out2 = os.path.join(ctx.scratch, "c02html")
+            shutil.rmtree(out2, ignore_errors=True)
+            os.makedirs(out2)
+            argv2 = [os.path.join(d, "robsd-regress-html"), "-o", out2, "amd64:" + root2]
+        pR = subprocess.Popen(argv2, stdout=subprocess.PIPE, stderr=subprocess.PIPE, env=dict(os.environ, ASAN_OPTIONS="detect_leaks=0"))
+        early = None
+        while time.time() - t0 < hold:
+            if pR.poll() is not None:
+                early = round(time.time() - t0, 2)
+                break
+            time.sleep(0.05)
+        outsA = sA.finish()
+        outR, errR = pR.communicate(timeout=30)
+        kinds["held-after-truncate-" + which] = kinds.get("held-after-truncate-" + which, 0) + 1
+        shown = outR.decode(errors="replace") if which == "report" else (open(os.path.join(out2, "index.html"), errors="replace").read() if os.path.exists(os.path.join(out2, "index.html")) else "")
+        info = dict(reader=" ".join(argv2[:1] + ["..."]), held_at=pt, file_empty_while_held=empty_now, finished_early_after=early, reader_rc=pR.returncode,
+                    reader_stderr=errR.decode(errors="replace")[-300:], shown=shown[:600],
+                    replay="robsd-step -W -i 3 (ROBSD_VERIF_SYNC) released up to the point after `truncate` and held there for %.1f s; %s started meanwhile" % (hold, which))
+        if pt != "write":
+            ctx.disagreement("held-after-truncate: the writer did not reach the point after truncate", info)
+            continue
+        sees = "one" in shown and ("1 failure" in shown if which == "report" else True)
+        if early is not None:
+            ctx.violation("robsd-%s finished after %.2f s while a writer held the step file's lock with the file truncated%s" % (
+                "report" if which == "report" else "regress-html", early, "" if sees else ": it saw an empty or partial step file"), info)
+        elif pR.returncode == 0 and not sees:
+            ctx.violation("robsd-%s succeeded but does not show the steps of the file (an intermediate state was read)" % ("report" if which == "report" else "regress-html"), info)
     ans = ctx.model(reqs) if reqs else []
     for q, a, (final, outs, order), info in zip(reqs, ans, wants, infos):
         w = a.split(" ")
@@ -359,7 +416,7 @@ def run(ctx):
     ctx.cov.update(dict(
         evaluations=len(reqs) + kinds.get("stress", 0) + kinds.get("shape", 0), distinct_nontrivial=len(distinct),
         rule="2-3 real robsd-step processes (writers to the same and to distinct ids, partial updates, rejected writes, readers by index/name) driven through the "
-             "ROBSD_VERIF_SYNC points (open, lock, read, truncate, write, close, unlock) along random interleavings plus serial controls; non-trivial = distinct "
+             "ROBSD_VERIF_SYNC points (open, lock, read, truncate, write, close, unlock) along random interleavings plus serial controls; robsd-report and robsd-regress-html started while a writer is held right after truncating the file; non-trivial = distinct "
              "non-serial schedule; final file and reader outputs compared with the Flock model on the same schedule and with every serial order computed by the real "
              "binary; system-call shape from strace; free-running stress of 12 writers + 6 readers blocking in flock(2)",
         samples=[dict(specs=[str(x) for x in i["specs"]], sched=i["sched"]) for i in infos[:3]],
